@@ -1,11 +1,11 @@
 package verifsim
 
 import (
-	"strings"
 	"flag"
 	"fmt"
 	"math/rand"
 	"os"
+	"strings"
 
 	"k8s.io/apimachinery/pkg/apis/meta/v1/unstructured"
 )
@@ -17,8 +17,19 @@ import (
 type StagedScenario struct {
 	// NoDrift: the scenario ends paused, so third-party drift is (by C09) not repaired; only faults and crashes apply
 	NoDrift bool
+	// Drifts: drift kinds that apply although NoDrift is set
+	Drifts []string
 	Name   string
 	Stages []func(w *World)
+}
+
+func containsStr(l []string, s string) bool {
+	for _, x := range l {
+		if x == s {
+			return true
+		}
+	}
+	return false
 }
 
 func StagedScenarios() []StagedScenario {
@@ -64,6 +75,10 @@ func StagedScenarios() []StagedScenario {
 		{Name: "c10-deploy", Stages: []func(*World){
 			func(w *World) { w.EnvCreate(NewObjectDeployment("d1", TemplateVariant(0))) },
 			func(w *World) { w.EnvSetTemplate(KOD("d1"), 1) }}},
+		// a paused deployment keeps its revisions paused: a child revision somebody re-activates by hand is paused again
+		{Name: "c10-deploy-paused", NoDrift: true, Drifts: []string{"drift-child-lifecycle"}, Stages: []func(*World){
+			func(w *World) { w.EnvCreate(NewObjectDeployment("d1", TemplateVariant(0))) },
+			func(w *World) { w.EnvSetPaused(KOD("d1"), true) }}},
 	}
 }
 
@@ -105,6 +120,15 @@ func (sr *stagedRunner) drift(kind string) {
 	}
 	k := existing[sr.rng.Intn(len(existing))]
 	switch kind {
+	case "drift-child-lifecycle":
+		// somebody re-activates a revision its deployment had paused (the paused-by-parent mark stays where it is)
+		for _, sk := range w.CRKeys("ObjectSet") {
+			m := w.Store.Snapshot(sk)
+			if m != nil && len(ownerRefs(m)) > 0 && getStr(nestedMap(m, "spec"), "lifecycleState") == "Paused" {
+				w.EnvSetLifecycle(sk, "Active")
+				break
+			}
+		}
 	case "drift-phase":
 		// somebody deletes an ObjectSetPhase object: the ObjectSet re-creates it, its controller re-creates the objects
 		var phases []Key
@@ -223,7 +247,7 @@ func init() {
 	extraDrivers["fault-sweep"] = func(w *World, _ *flag.FlagSet, a driverArgs) int {
 		// -n: max number of disturbed runs per scenario (0 = every call index × every kind); -mode pairs: two faults
 		scs := StagedScenarios()
-		kinds := []string{"before", "after", "crash", "drift-edit", "drift-delete", "drift-label", "drift-rev", "drift-phase"}
+		kinds := []string{"before", "after", "crash", "drift-edit", "drift-delete", "drift-label", "drift-rev", "drift-phase", "drift-child-lifecycle"}
 		job := 0
 		for _, sc := range scs {
 			ref, calls, ok := RunStaged(w, sc, "reference", nil, 0, nil)
@@ -237,7 +261,7 @@ func init() {
 			var cands []cand
 			for at := 0; at < calls; at++ {
 				for _, k := range kinds {
-					if sc.NoDrift && strings.HasPrefix(k, "drift") {
+					if sc.NoDrift && strings.HasPrefix(k, "drift") && !containsStr(sc.Drifts, k) {
 						continue
 					}
 					cands = append(cands, cand{[]disturbance{{at, k}}, fmt.Sprintf("%s@%d", k, at)})
